@@ -1,4 +1,5 @@
 import DimodModel.Fix
+import DimodModel.PyHist
 import DimodModel.EnergyVars
 import DimodModel.Wire
 open Wire En
@@ -189,6 +190,11 @@ def showLBqm (m : LBqm Rat) : String :=
     s!"{a}~{b}={showRat t.2.2}").mergeSort (· ≤ ·)
   s!"{showVT m.vt} {showRat m.off} {if lins.isEmpty then "-" else String.intercalate "," lins} {if quads.isEmpty then "-" else String.intercalate "," quads}"
 
+/-- raw insertion order of the dict of dicts: `u>v,v,…;u>…` -/
+def showOrder (m : LBqm Rat) : String :=
+  if m.adj.isEmpty then "-" else
+  String.intercalate ";" (m.rawOrder.map fun p => s!"{showLabel p.1}>{String.intercalate "," (p.2.map showLabel)}")
+
 def lbFin (_d : LBqm Rat) (r : LBqm Rat × Option Err) : LBqm Rat × String :=
   match r with
   | (d', none) => (d', "ok " ++ showLBqm d')
@@ -240,6 +246,9 @@ def lbStep (d : LBqm Rat) (view : VT) (old : Bool) (op : List String) : LBqm Rat
     | some vt => lbFin d (d.changeVartypeWith pyToBinary pyToSpin vt, none) | none => bad
   | ["fix", v, a] => match parseLabel? v, parseRat? a with
     | some v, some a => if view = d.vt then lbExc d (d.fixVariable v a) else bad | _, _ => bad
+  | ["relabel", o, n] => match parseLabel? o, parseLabel? n with
+    | some o, some n => if view = d.vt then lbFin d (d.relabelOne o n, none) else bad | _, _ => bad
+  | ["order"] => (d, "ok " ++ showOrder d)
   | ["getoff"] => (d, "ok " ++ showRat (View.offset T view d))
   | ["getlin", v] => match parseLabel? v with
     | some v => lbVal d (View.getLinear T view d v) | none => bad
